@@ -208,12 +208,17 @@ def run_check(cid, tier, cfg):
         for k in range(u['shards']):
             out = os.path.join(odir, 'out.%d.json' % k)
             cmd = u.get('wrap', []) + [binp, '--tier', tier, '--shard', '%d/%d' % (k, u['shards']), '--out', out, '--seed', str(seed),
-                   '--deadline', str(deadline), '--variant', u['name']] + u['args']
+                   '--deadline', 'REMAINING', '--variant', u['name']] + u['args']
             env = dict(SAN_ENV) if u['mode'] == 'san' else {}
             env.update(u['env'])
             jobs.append((u, k, cmd, env, out))
+    t_end = t0 + deadline   # one global deadline for the whole command: a job started late gets what is left
+
+    def start(j):
+        left = max(5.0, t_end - time.time())
+        return run_proc([('%.0f' % left) if a == 'REMAINING' else a for a in j[2]], j[3], left + 120, j[4])
     with ThreadPoolExecutor(NCPU) as ex:
-        results = list(ex.map(lambda j: run_proc(j[2], j[3], deadline + 120, j[4]), jobs))
+        results = list(ex.map(start, jobs))
 
     tot = dict(evaluations=0, nontrivial=0, total_cases={}, duplicates=0, capped=False)
     classes, counters, samples, viols = {}, {}, [], []
